@@ -103,9 +103,15 @@ fn run29(ctx: &mut Ctx) {
             let dbg = rng.bool();
             let Some(g) = gen_object(rng, &opts, dbg) else { ctx.count("no-object"); return };
             let has_ext = g.a.labels.values().any(|x| x.1);
+            // the words the file reserves may hold anything when it is loaded: fully or partially initialized data left by an
+            // earlier program (partial = some bits known, e.g. after AND with a mask)
+            let mut predirtied = 0;
+            if rng.chance(1, 3) {
+                for (a, w) in &g.a.image { if w.is_none() && rng.chance(1, 2) { sim.mem[*a] = if rng.bool() { Word::new_init(rng.u16()) } else { Word::verif_from_parts(rng.u16(), *rng.pick(&[0xFF00u16, 0x00FF, 0x8000, 0x0001, 0xFFFE])) }; predirtied += 1; } }
+            }
             let before = snapshot(&sim);
             ctx.eval();
-            let case = || Json::obj().set("source", g.r.text.as_str()).set("round", round).set("init", format!("{init:?}"));
+            let case = || Json::obj().set("source", g.r.text.as_str()).set("round", round).set("init", format!("{init:?}")).set("reserved_words_holding_data_before_the_load", predirtied);
             let Some(res) = ctx.no_panic("load_obj_file", case, || sim.load_obj_file(&g.obj)) else { return };
             let after = snapshot(&sim);
             if has_ext {
@@ -119,7 +125,7 @@ fn run29(ctx: &mut Ctx) {
                 let (b, m) = (before.0[a as usize], after.0[a as usize]);
                 match g.a.image.get(&a) {
                     Some(Some(v)) => if m.get() != *v || !m.is_init() { ctx.violation("loaded-word-wrong", format!("mem[x{a:04X}] = {m:?} after load, file says x{v:04X}"), case()); return; },
-                    Some(None) => { if m.is_init() { ctx.violation("reserved-word-initialized", format!("mem[x{a:04X}] (.blkw) = {m:?} is initialized after load"), case()); return; } }
+                    Some(None) => { if m.is_init() || m.verif_init_mask() != 0 { ctx.violation("reserved-word-initialized", format!("mem[x{a:04X}] (.blkw) = {m:?} is initialized after load (initialization mask x{:04X})", m.verif_init_mask()), case()); return; } }
                     None => if b != m { ctx.violation("other-memory-changed", format!("mem[x{a:04X}] changed from {b:?} to {m:?} although the file does not define it"), case()); return; },
                 }
             }
@@ -130,6 +136,7 @@ fn run29(ctx: &mut Ctx) {
             if g.a.blocks.iter().any(|(s, w)| *s as u32 + w.len() as u32 == 0xFE00) { ctx.count("loads.block-ending-at-xFE00"); }
             if g.a.blocks.iter().any(|(s, _)| *s < 0x0200) { ctx.count("loads.block-in-vector-table"); }
             if g.a.image.values().any(|w| w.is_none()) { ctx.count("loads.with-blkw"); }
+            if predirtied > 0 { ctx.count("loads.over-reserved-words-holding-data"); }
             // execute a little between loads
             if rng.bool() { sim.pc = g.a.blocks.first().map(|b| b.0).unwrap_or(0x3000); let mut c = 0; let _ = sim.run_while(|_| { c += 1; c < 40 }); ctx.count("executed-between-loads"); }
             if ctx.want_sample() && g.r.text.len() < 200 { ctx.sample(case()); }
@@ -139,7 +146,7 @@ fn run29(ctx: &mut Ctx) {
 fn guard29(m: &Merged, _t: Tier) -> Vec<String> {
     let mut out = vec![];
     for k in ["fresh.known", "fresh.seeded", "fresh.unseeded"] { need(m, &mut out, k, 10); }
-    for k in ["loads.ok.round0", "loads.ok.round1", "loads.refused-external", "loads.block-ending-at-xFE00", "loads.block-in-vector-table", "loads.with-blkw", "executed-between-loads", "os-words-checked"] { need(m, &mut out, k, 20); }
+    for k in ["loads.ok.round0", "loads.ok.round1", "loads.refused-external", "loads.block-ending-at-xFE00", "loads.block-in-vector-table", "loads.with-blkw", "loads.over-reserved-words-holding-data", "executed-between-loads", "os-words-checked"] { need(m, &mut out, k, 20); }
     out
 }
 
@@ -176,7 +183,8 @@ fn run30(ctx: &mut Ctx) {
                 8 => { if let Some(a) = bps.pop() { sim.breakpoints.remove(&Breakpoint::PC(a)); sim.breakpoints.remove(&Breakpoint::Reg { reg: reg(1), value: Comparator::Eq(a) }); hist.push(format!("remove breakpoints x{a:04X}")); } }
                 9 => { let r = Recorder::new(next_id); let ports: Vec<u16> = (0..1 + rng.usize(2)).map(|_| 0xFE20 + 2 * rng.below(40) as u16).collect(); if let Ok(id) = sim.device_handler.add_device(r.clone(), &ports) { if id != next_id { ctx.violation("device-id-sequence", format!("add_device returned id {id}, expected {next_id}"), case(&hist)); return; } recs.push((id, r, ports.clone())); next_id += 1; configured = true; hist.push(format!("add device {id} on {ports:04X?}")); } }
                 10 => { if !recs.is_empty() && rng.bool() { let i = rng.usize(recs.len()); let (id, _, _) = recs.remove(i); sim.device_handler.remove_device(id); hist.push(format!("remove device {id}")); } else { let kb = BufferedKeyboard::default(); kb.get_buffer().write().unwrap().extend([1u8, 2, 3]); sim.device_handler.set_keyboard(kb); sim.device_handler.set_display(BufferedDisplay::default()); hist.push("set keyboard/display".into()); } }
-                11 => { let p = 0xFF00 + 2 * rng.below(60) as u16; let r = *rng.pick(&[InternalRegister::PC, InternalRegister::PSR, InternalRegister::MCR, InternalRegister::SavedSP]); if sim.mmap_internal(p, r).is_ok() { maps.push(p); configured = true; hist.push(format!("mmap x{p:04X} = {r:?}")); } }
+                11 => { // mostly free ports; sometimes a keyboard/display port or the port of an attached device (a mapping may share its address with a device)
+                    let p = match rng.below(6) { 0 => *rng.pick(&[0xFE00u16, 0xFE02, 0xFE04, 0xFE06]), 1 if !recs.is_empty() => recs[rng.usize(recs.len())].2[0], _ => 0xFF00 + 2 * rng.below(60) as u16 }; let r = *rng.pick(&[InternalRegister::PC, InternalRegister::PSR, InternalRegister::MCR, InternalRegister::SavedSP]); if sim.mmap_internal(p, r).is_ok() { maps.push(p); configured = true; hist.push(format!("mmap x{p:04X} = {r:?}")); } }
                 12 => {
                     if rng.chance(1, 3) {
                         // remove (and sometimes replace) one of the two default mappings
@@ -216,6 +224,7 @@ fn run30(ctx: &mut Ctx) {
         for p in &maps { if replaced.contains(p) || removed_defaults.contains(p) { continue; } if !sim.munmap_internal(*p) { ctx.violation("reset:internal-mapping-lost", format!("port x{p:04X} is no longer mapped"), c()); return; } }
         for (id, r, ports) in &recs {
             r.take();
+            if maps.contains(&ports[0]) { ctx.count("resets.with-mapping-on-a-device-port"); continue; } // the register mapped there answers first
             let v = sim.read_mem(ports[0], priv_ctx()).map(|w| w.get()).unwrap_or(0);
             let log = r.take();
             if log.len() != 1 || v != r.answer { ctx.violation("reset:device-detached", format!("device {id} on x{:04X} no longer reached (log {log:?}, read x{v:04X})", ports[0]), c()); return; }
@@ -241,7 +250,7 @@ struct D { sim: Simulator, ds: BufferedDisplay, kb: BufferedKeyboard }
 fn mk31(text: &str, isr: &str, init: MachineInitStrategy, real: bool, kbd: &[u8], timers: &[(u64, u32, u32, u8, bool)]) -> Option<D> {
     let mut sim = Simulator::new(SimFlags { machine_init: init, use_real_traps: real, ..Default::default() });
     for t in [text, isr] { let ast = lc3_ensemble::parse::parse_ast(t).ok()?; let o = lc3_ensemble::asm::assemble(ast).ok()?; sim.load_obj_file(&o).ok()?; }
-    sim.mem[0x0190] = Word::new_init(0x1000); sim.mem[0x0191] = Word::new_init(0x1000);
+    sim.mem[0x0190] = Word::new_init(0x1000); sim.mem[0x0191] = Word::new_init(0x1100);
     let kb = BufferedKeyboard::default(); kb.get_buffer().write().unwrap().extend(kbd.iter().copied()); sim.device_handler.set_keyboard(kb.clone());
     let ds = BufferedDisplay::default(); sim.device_handler.set_display(ds.clone());
     for (i, (seed, lo, hi, prio, half_open)) in timers.iter().enumerate() { let mut t = if *half_open { TimerDevice::new(Some(*seed), *lo..*hi + 1, 0x90 + i as u8, *prio) } else { TimerDevice::new(Some(*seed), *lo..=*hi, 0x90 + i as u8, *prio) }; t.enabled = true; sim.device_handler.add_device(t, &[]).ok()?; }
@@ -258,10 +267,13 @@ fn run31(ctx: &mut Ctx) {
         let fl = rng.chance(1, 5);
         let prog = gen_user_prog(rng, &ProgOpts { faults: fl, ..ProgOpts::default() });
         // half of the service routines read KBDR (in supervisor mode; the queue may well be empty by then: a read nobody answers)
-        let rk = rng.bool(); let isr = gen_isr(rng, 0x1000, rk);
+        // two service routines (x1000 for vector x90, x1100 for vector x91), so that it is observable which timer was served
+        let rk = rng.bool(); let isr = format!("{}{}", gen_isr(rng, 0x1000, rk), gen_isr(rng, 0x1100, false).replace("ISR_SCRATCH", "ISR2_SCRATCH").replace("ISR_KBDR", "ISR2_KBDR"));
         let kbd: Vec<u8> = (0..prog.kbd_needed + rng.usize(2)).map(|_| rng.next() as u8).collect();
         let nt = rng.usize(3);
         let timers: Vec<(u64, u32, u32, u8, bool)> = (0..nt).map(|i| { let lo = 15 + rng.below(40) as u32; (match rng.below(8) { 0 => 0, 1 => u64::MAX, _ => rng.next() }, lo, if rng.bool() { lo } else { lo + rng.below(30) as u32 }, 2 + 2 * i as u8, rng.bool()) }).collect();
+        // sometimes the timers tie: same priority, same exact period, so both request on the same step (which one wins must not vary between runs)
+        let timers: Vec<(u64, u32, u32, u8, bool)> = if timers.len() == 2 && rng.chance(1, 3) { let t0 = timers[0]; vec![(t0.0, t0.1, t0.1, 4, false), (timers[1].0, t0.1, t0.1, 4, false)] } else { timers };
         let real = rng.bool();
         let (Some(mut a), Some(mut b)) = (mk31(&prog.text, &isr, init, real, &kbd, &timers), mk31(&prog.text, &isr, init, real, &kbd, &timers)) else { ctx.count("not-assembled"); return };
         let case = || Json::obj().set("program", prog.text.as_str()).set("init", format!("{init:?}")).set("timers", format!("{timers:?}")).set("kbd", format!("{kbd:?}")).set("real_traps", real);
@@ -281,7 +293,7 @@ fn run31(ctx: &mut Ctx) {
                 if steps >= k {
                     disturbed = true;
                     for m in [&mut a, &mut b] {
-                        if disturb_reset { m.sim.reset(); let _ = m.sim.load_obj_file(io); m.sim.mem[0x0190] = Word::new_init(0x1000); m.sim.mem[0x0191] = Word::new_init(0x1000); m.kb.get_buffer().write().unwrap().extend(kbd.iter().copied()); }
+                        if disturb_reset { m.sim.reset(); let _ = m.sim.load_obj_file(io); m.sim.mem[0x0190] = Word::new_init(0x1000); m.sim.mem[0x0191] = Word::new_init(0x1100); m.kb.get_buffer().write().unwrap().extend(kbd.iter().copied()); }
                         let _ = m.sim.load_obj_file(o);
                         if disturb_reset { m.sim.pc = 0x3000; }
                     }
@@ -315,6 +327,7 @@ fn run31(ctx: &mut Ctx) {
         if steps >= 20 && (entries > 0 || matches!(init, MachineInitStrategy::Seeded { .. })) { ctx.nontrivial(crate::rng::hash_bytes(format!("{}{timers:?}{init:?}", prog.text).as_bytes())); }
         ctx.count_n("steps.compared", steps);
         if entries > 0 { ctx.count("runs.with-timer-interrupts"); }
+        if entries > 0 && timers.len() == 2 && timers[0].3 == timers[1].3 { ctx.count("runs.with-tied-timers"); }
         if entries > 0 && timers.iter().any(|t| t.4 && t.2 > t.1) { ctx.count("runs.with-half-open-timer-range"); }
         ctx.count(if by_run { "runs.segmented" } else { "runs.stepwise" });
         ctx.count(match init { MachineInitStrategy::Known { .. } => "init.known", MachineInitStrategy::Seeded { seed: 0 } => "init.seeded-with-0", _ => "init.seeded" });
@@ -344,7 +357,7 @@ fn known_fill(ctx: &mut Ctx) {
 fn guard31(m: &Merged, _t: Tier) -> Vec<String> {
     let mut out = vec![];
     need(m, &mut out, "known-fill.machines", 16);
-    for k in ["runs.with-timer-interrupts", "runs.with-half-open-timer-range", "runs.segmented", "runs.stepwise", "init.known", "init.seeded", "init.seeded-with-0", "runs.with-timer-seed-0", "runs.reset-and-reload-midway", "runs.reload-midway"] { need(m, &mut out, k, 30); }
+    for k in ["runs.with-timer-interrupts", "runs.with-half-open-timer-range", "runs.with-tied-timers", "runs.segmented", "runs.stepwise", "init.known", "init.seeded", "init.seeded-with-0", "runs.with-timer-seed-0", "runs.reset-and-reload-midway", "runs.reload-midway"] { need(m, &mut out, k, 30); }
     need(m, &mut out, "steps.compared", 50_000);
     out
 }
